@@ -1,4 +1,552 @@
-//! C06 — every text entry point is total (placeholder; filled in below).
-pub fn run_entry(_entry: &str, _text: &str, _ty: &str) -> String {
-    "not implemented".into()
+//! C06 — every text entry point is total: Ok or Err, never a panic / abort / stack overflow.
+//! Inputs run in isolated worker subprocesses (address-space limit, watchdog), so that an abort is attributed
+//! to the input that caused it and the exploration continues.
+
+use crate::drive;
+use crate::report::Report;
+use crate::tokens::{self, Lexed};
+use serde_json::json;
+use simfony::parse::ParseFromStr;
+use std::io::{BufRead, BufReader, Write};
+use std::process::{Child, Command, Stdio};
+use std::sync::atomic::{AtomicUsize, Ordering};
+use std::sync::mpsc;
+use std::time::Duration;
+
+// ---------------------------------------------------------------------------------------------
+// entry points
+
+pub const PROGRAM_ENTRIES: [&str; 4] = ["program", "parse-display", "witness-module", "param-module"];
+pub const JSON_ENTRIES: [&str; 2] = ["json-witness", "json-args"];
+
+/// Run one entry point on one text; returns a short description of what was returned. Panics propagate.
+pub fn run_entry_raw(entry: &str, text: &str, ty: &str) -> String {
+    match entry {
+        "program" => match simfony::TemplateProgram::new(text) {
+            Err(e) => format!("new: Err ({} bytes)", e.len()),
+            Ok(t) => {
+                let mut args = vec![];
+                for (n, pt) in t.parameters().iter() {
+                    let hty = drive::from_sim_ty(pt);
+                    args.push((n.as_inner().to_string(), crate::refmodel::zero_val(&hty), hty));
+                }
+                match t.instantiate(drive::argument_map(&args), true) {
+                    Err(e) => format!("instantiate: Err ({} bytes)", e.len()),
+                    Ok(c) => {
+                        let _ = c.commit();
+                        match c.satisfy(simfony::WitnessValues::default()) {
+                            Err(e) => format!("satisfy: Err ({} bytes)", e.len()),
+                            Ok(s) => {
+                                let _ = s.redeem().encode_to_vec();
+                                "satisfy: Ok".into()
+                            }
+                        }
+                    }
+                }
+            }
+        },
+        "parse-display" => match simfony::parse::Program::parse_from_str(text) {
+            Err(e) => format!("parse: Err ({} bytes)", e.to_string().len()),
+            Ok(p) => format!("parse: Ok, printed {} bytes", p.to_string().len()),
+        },
+        "witness-module" => match simfony::WitnessValues::parse_from_str(text) {
+            Err(e) => format!("Err ({} bytes)", e.to_string().len()),
+            Ok(w) => format!("Ok, printed {} bytes", w.to_string().len()),
+        },
+        "param-module" => match simfony::Arguments::parse_from_str(text) {
+            Err(e) => format!("Err ({} bytes)", e.to_string().len()),
+            Ok(w) => format!("Ok, printed {} bytes", w.to_string().len()),
+        },
+        "json-witness" => match serde_json::from_str::<simfony::WitnessValues>(text) {
+            Err(e) => format!("Err ({} bytes)", e.to_string().len()),
+            Ok(w) => format!("Ok, printed {} bytes", serde_json::to_string(&w).map(|s| s.len()).unwrap_or(0)),
+        },
+        "json-args" => match serde_json::from_str::<simfony::Arguments>(text) {
+            Err(e) => format!("Err ({} bytes)", e.to_string().len()),
+            Ok(w) => format!("Ok, printed {} bytes", serde_json::to_string(&w).map(|s| s.len()).unwrap_or(0)),
+        },
+        "value" => {
+            let Some(hty) = crate::lang::parse_ty(ty).and_then(|t| crate::refmodel::resolve(&t, &Default::default()).ok()) else { return "harness: bad type".into() };
+            match simfony::Value::parse_from_str(text, &drive::sim_ty(&hty)) {
+                Err(e) => format!("Err ({} bytes)", e.to_string().len()),
+                Ok(v) => format!("Ok, printed {} bytes", v.to_string().len()),
+            }
+        }
+        "type" => match simfony::ResolvedType::parse_from_str(text) {
+            Err(e) => format!("Err ({} bytes)", e.to_string().len()),
+            Ok(t) => format!("Ok, printed {} bytes", t.to_string().len()),
+        },
+        other => format!("harness: unknown entry {other}"),
+    }
+}
+
+/// Used by `./check replay` (in-process, guarded).
+pub fn run_entry(entry: &str, text: &str, ty: &str) -> String {
+    match drive::guard(|| run_entry_raw(entry, text, ty)) {
+        Ok(s) => s,
+        Err(p) => format!("panic: {p}"),
+    }
+}
+
+// ---------------------------------------------------------------------------------------------
+// input space: jobs -> inputs.  Both parent and worker can expand a job deterministically.
+
+#[derive(Clone, Debug)]
+pub struct Input {
+    pub entries: Vec<&'static str>,
+    pub text: String,
+    pub ty: String,
+}
+
+struct Space {
+    prog_seeds: Vec<(String, String)>,
+    prog_lexed: Vec<Lexed>,
+    mod_seeds: Vec<(String, String)>,
+    mod_lexed: Vec<Lexed>,
+    json_seeds: Vec<(String, String)>,
+    json_lexed: Vec<Lexed>,
+    alpha: Vec<String>,
+    alpha_small: Vec<String>,
+    value_strings: Vec<String>,
+    value_types: Vec<String>,
+    type_strings: Vec<String>,
+    short_alpha: Vec<char>,
+    shorter_alpha: Vec<char>,
+    quick: bool,
+}
+
+fn nested(open: &str, close: &str, inner: &str, n: usize) -> String {
+    format!("{}{}{}", open.repeat(n), inner, close.repeat(n))
+}
+
+impl Space {
+    fn new(quick: bool) -> Self {
+        let mut prog_seeds = tokens::program_seeds(quick);
+        // each bracket kind nested exactly 12 deep
+        prog_seeds.push(("nest-paren".into(), format!("fn main() {{ let x: u8 = {}; }}", nested("(", ")", "1", 11))));
+        prog_seeds.push(("nest-block".into(), format!("fn main() {{ let x: u8 = {}; }}", nested("{", "}", "1", 11))));
+        prog_seeds.push(("nest-array-type".into(), format!("fn main() {{ let x: {} = witness::A; }}", nested("[", "; 1]", "u8", 10))));
+        prog_seeds.push(("nest-option-type".into(), format!("fn main() {{ let x: {} = None; }}", nested("Option<", ">", "u8", 10))));
+        if quick {
+            // keep the quick tier small: the kitchen-sink programs, 3 family samples, the 4 smallest examples, the nests
+            let mut ex: Vec<(String, String)> = prog_seeds.iter().filter(|s| s.0.ends_with(".simf")).cloned().collect();
+            ex.sort_by_key(|e| e.1.len());
+            ex.truncate(2);
+            prog_seeds.retain(|s| !s.0.ends_with(".simf"));
+            let fam: Vec<(String, String)> = prog_seeds.iter().filter(|s| s.0.starts_with("F-A")).take(2).cloned().collect();
+            prog_seeds.retain(|s| !s.0.starts_with("P2") && !s.0.starts_with("P4"));
+            prog_seeds.retain(|s| !s.0.starts_with("F-A"));
+            prog_seeds.extend(fam);
+            prog_seeds.extend(ex);
+        }
+        let mod_seeds = tokens::witness_module_seeds();
+        let json_seeds = tokens::json_seeds();
+        let value_strings: Vec<String> = {
+            let mut v: Vec<String> = vec![
+                "", "_", "__", "0x_", "0b_", "0x", "0b", "1_", "_1", "00", "0x0", "0b2", "0xg", "0", "1", "255", "256", "65535", "65536", "0xff", "0xFF", "0x00ff", "0b1", "0b01", "0b00000001", "true", "false", "True", "None", "Some(1)", "Some(None)",
+                "Left(1)", "Right(1)", "Left(Left(1))", "()", "(1)", "(1,)", "(1, 2)", "(1, 2,)", "((1, 2), 3)", "[]", "[1]", "[1, 2]", "[1, 2,]", "[[1], [2]]", "list![]", "list![1]", "list![1, 2, 3]", "list![1, 2, 3, 4]", "list![list![]]", "0x0102", "0x01_02",
+                "[0x01, 0x02]", "(0x01, 1)", "witness::A", "param::A", "x", "jet::eq_8(1, 1)", "{ 1 }", "match true { true => 1, false => 2, }", "dbg!(1)", "<u8>::into(1)", "unwrap(Some(1))", "1 2", "1)", "(1", "1,", "Some(", "Left(", "é", "嗨", "\u{0}", "1\r\n", "\t1\t", "/* c */ 1", "1 // c",
+                "-1", "+1", "1.0", "1e3", "0x", "0X1", "0B1", "00000000000000000000000000000000000000000000000000000000000000000000000000000001",
+            ]
+            .into_iter()
+            .map(|s| s.to_string())
+            .collect();
+            for n in [20usize, 39, 77, 78, 79, 400] {
+                v.push("9".repeat(n));
+                v.push(format!("1{}", "0".repeat(n)));
+            }
+            for n in [1usize, 2, 4, 8, 16, 32, 64, 65, 128, 256] {
+                v.push(format!("0x{}", "f".repeat(n)));
+                v.push(format!("0b{}", "1".repeat(n)));
+            }
+            v.push(format!("[{}]", vec!["1"; 300].join(", ")));
+            v.push(format!("list![{}]", vec!["1"; 300].join(", ")));
+            v.push(nested("(", ",)", "1", 11));
+            v.push(nested("Some(", ")", "1", 11));
+            v
+        };
+        let value_types: Vec<String> = {
+            let mut t: Vec<String> = ["u1", "u2", "u4", "u8", "u16", "u32", "u64", "u128", "u256", "bool", "()", "(u8,)", "(u8, u8)", "((u8, u8), u8)", "[u8; 0]", "[u8; 1]", "[u8; 2]", "[u8; 32]", "[u1; 2]", "[[u8; 1]; 2]", "List<u8, 2>", "List<u8, 4>", "List<List<u8, 2>, 2>", "Option<u8>", "Option<Option<u8>>", "Either<u8, u8>", "Either<Either<u8, u8>, u8>", "Option<[u8; 2]>", "(u8, [u8; 1])", "Either<(), u1>"]
+                .iter()
+                .map(|s| s.to_string())
+                .collect();
+            if !quick {
+                for s in ["[u8; 3]", "[u16; 2]", "[u8; 64]", "List<u8, 512>", "List<[u8; 2], 8>", "(u1, u2, u4)", "[(u8, u8); 2]", "Option<()>", "Either<bool, [u8; 0]>", "((), ())", "[(); 3]", "List<(), 2>", "Option<u256>", "(u128, u256)", "[u256; 2]", "Either<u1, u256>", "List<bool, 16>", "[bool; 8]", "(bool, bool, bool, bool, bool)", "Option<List<u8, 2>>", "[Option<u8>; 2]", "List<Option<u1>, 4>", "Either<List<u8, 2>, [u8; 2]>", "(u8, (u8, (u8, (u8, u8))))", "[[[[u8; 1]; 1]; 1]; 1]", "Option<Option<Option<bool>>>", "Either<(u8, u8), (u16,)>", "[u4; 4]", "List<u4, 8>", "(u2, [u2; 2])"] {
+                    t.push(s.to_string());
+                }
+            }
+            t
+        };
+        let type_strings: Vec<String> = {
+            let mut v: Vec<String> = vec![
+                "", "u8", "u3", "u512", "u0", "u", "bool", "Bool", "()", "(u8)", "(u8,)", "(u8, u8", "u8)", "[u8; 2]", "[u8; ]", "[u8; -1]", "[u8; 2", "[u8 2]", "[; 2]", "[u8; 0x2]", "[u8; 2_0]", "List<u8, 2>", "List<u8, 3>", "List<u8, 1>", "List<u8, 0>", "List<u8>", "List<, 2>", "List<u8, 2",
+                "Option<u8>", "Option<>", "Option<u8, u8>", "Either<u8, u8>", "Either<u8>", "Either<u8, u8, u8>", "Ctx8", "Pubkey", "Fee", "Foo", "u8 u8", "u8,", "é", "嗨", "\u{0}", "u8\r\n", " u8 ", "/* c */ u8", "List<u8, 18446744073709551616>", "[u8; 18446744073709551616]", "[u8; 99999999999999999999999999]",
+                "List<u8, 9223372036854775808>", "[u8; 4294967296]", "[[u8; 65536]; 65536]",
+            ]
+            .into_iter()
+            .map(|s| s.to_string())
+            .collect();
+            v.push(nested("Option<", ">", "u8", 12));
+            v.push(nested("[", "; 1]", "u8", 12));
+            v.push(nested("(", ",)", "u8", 12));
+            v.push(nested("Either<u8, ", ">", "u8", 12));
+            v
+        };
+        let short_alpha: Vec<char> = "abfnletu0189_xAL(){}[]<>,;:=-!&|'\"#@*/\\ \n\r\t.é嗨?+%^~`$OSNTRmwpjtc".chars().collect::<std::collections::BTreeSet<char>>().into_iter().collect();
+        let shorter_alpha: Vec<char> = "a0_x({[<,;:=! \n>)]}".chars().collect();
+        Space {
+            prog_lexed: prog_seeds.iter().map(|s| tokens::lex(&s.1)).collect(),
+            prog_seeds,
+            mod_lexed: mod_seeds.iter().map(|s| tokens::lex(&s.1)).collect(),
+            mod_seeds,
+            json_lexed: json_seeds.iter().map(|s| tokens::lex(&s.1)).collect(),
+            json_seeds,
+            alpha: tokens::alphabet(quick, true),
+            alpha_small: tokens::alphabet(true, true).into_iter().step_by(3).collect(),
+            value_strings,
+            value_types,
+            type_strings,
+            short_alpha,
+            shorter_alpha,
+            quick,
+        }
+    }
+
+    /// job descriptors: (kind, a, b)
+    fn jobs(&self) -> Vec<(char, usize, usize)> {
+        let mut j = vec![];
+        for (si, l) in self.prog_lexed.iter().enumerate() {
+            for p in 0..=l.toks.len() {
+                j.push(('P', si, p));
+            }
+        }
+        for (si, l) in self.mod_lexed.iter().enumerate() {
+            for p in 0..=l.toks.len() {
+                j.push(('M', si, p));
+            }
+        }
+        for (si, l) in self.json_lexed.iter().enumerate() {
+            for p in 0..=l.toks.len() {
+                j.push(('J', si, p));
+            }
+        }
+        for i in 0..self.value_strings.len() {
+            j.push(('V', i, 0));
+        }
+        j.push(('T', 0, 0));
+        // short strings: chunks by first character
+        for c in 0..self.short_alpha.len() {
+            j.push(('S', c, 0));
+        }
+        for c in 0..self.shorter_alpha.len() {
+            j.push(('s', c, 0));
+        }
+        if !self.quick {
+            // double edits on the 6 smallest program seeds: first edit position = a, seed = b
+            let mut order: Vec<usize> = (0..self.prog_seeds.len()).collect();
+            order.sort_by_key(|&i| self.prog_lexed[i].toks.len());
+            for &si in order.iter().take(6) {
+                for p in 0..self.prog_lexed[si].toks.len() {
+                    j.push(('D', si, p));
+                }
+            }
+        }
+        j
+    }
+
+    fn expand(&self, job: (char, usize, usize), f: &mut dyn FnMut(Input)) {
+        let (kind, a, b) = job;
+        match kind {
+            'P' => tokens::edits_at(&self.prog_lexed[a], b, &self.alpha, &mut |text, _| f(Input { entries: PROGRAM_ENTRIES.to_vec(), text, ty: String::new() })),
+            'M' => tokens::edits_at(&self.mod_lexed[a], b, &self.alpha, &mut |text, _| f(Input { entries: vec!["witness-module", "param-module", "program"], text, ty: String::new() })),
+            'J' => tokens::edits_at(&self.json_lexed[a], b, &self.alpha, &mut |text, _| f(Input { entries: JSON_ENTRIES.to_vec(), text, ty: String::new() })),
+            'V' => {
+                for t in &self.value_types {
+                    f(Input { entries: vec!["value"], text: self.value_strings[a].clone(), ty: t.clone() });
+                }
+            }
+            'T' => {
+                for t in &self.type_strings {
+                    f(Input { entries: vec!["type"], text: t.clone(), ty: String::new() });
+                }
+                for t in &self.value_types {
+                    f(Input { entries: vec!["type"], text: t.clone(), ty: String::new() });
+                }
+            }
+            'S' | 's' => {
+                let (alpha, maxlen) = if kind == 'S' { (&self.short_alpha, if self.quick { 2 } else { 3 }) } else { (&self.shorter_alpha, if self.quick { 3 } else { 4 }) };
+                // all strings of length 1..=maxlen starting with alpha[a]
+                let mut stack: Vec<String> = vec![alpha[a].to_string()];
+                while let Some(s) = stack.pop() {
+                    f(Input { entries: vec!["program", "witness-module", "type"], text: s.clone(), ty: String::new() });
+                    f(Input { entries: vec!["value"], text: s.clone(), ty: "(u8, Option<[u8; 1]>)".into() });
+                    if s.chars().count() < maxlen {
+                        for c in alpha {
+                            let mut t = s.clone();
+                            t.push(*c);
+                            stack.push(t);
+                        }
+                    }
+                }
+            }
+            'D' => {
+                // first edit at position b with the small alphabet, second edit at every later position
+                let l = &self.prog_lexed[a];
+                tokens::edits_at(l, b, &self.alpha_small, &mut |text1, _| {
+                    let l2 = tokens::lex(&text1);
+                    let start = b.min(l2.toks.len());
+                    for p2 in start..l2.toks.len().min(start + 12) {
+                        tokens::edits_at(&l2, p2, &self.alpha_small, &mut |text2, _| f(Input { entries: vec!["program", "parse-display"], text: text2, ty: String::new() }));
+                    }
+                });
+            }
+            _ => {}
+        }
+    }
+}
+
+// ---------------------------------------------------------------------------------------------
+// worker
+
+pub fn worker(tier: &str) -> i32 {
+    let space = Space::new(tier == "quick");
+    let stdin = std::io::stdin();
+    let stdout = std::io::stdout();
+    let mut line = String::new();
+    loop {
+        line.clear();
+        if stdin.lock().read_line(&mut line).unwrap_or(0) == 0 {
+            return 0;
+        }
+        let parts: Vec<&str> = line.split_whitespace().collect();
+        if parts.len() < 4 {
+            continue;
+        }
+        let kind = parts[0].chars().next().unwrap();
+        let a: usize = parts[1].parse().unwrap_or(0);
+        let b: usize = parts[2].parse().unwrap_or(0);
+        let from: usize = parts[3].parse().unwrap_or(0);
+        let mut k = 0usize;
+        let mut ran = 0u64;
+        let mut skipped_depth = 0u64;
+        let mut past_grammar = 0u64;
+        let mut out = stdout.lock();
+        space.expand((kind, a, b), &mut |inp: Input| {
+            let this = k;
+            k += 1;
+            if this < from {
+                return;
+            }
+            if tokens::bracket_depth(&inp.text) > 12 {
+                skipped_depth += 1;
+                return;
+            }
+            // announce, so that a dying worker identifies its input
+            let _ = writeln!(out, "S {this}");
+            let _ = out.flush();
+            for e in &inp.entries {
+                ran += 1;
+                match drive::guard(|| run_entry_raw(e, &inp.text, &inp.ty)) {
+                    Ok(desc) => {
+                        if !desc.starts_with("new: Err") && !desc.starts_with("parse: Err") && !desc.starts_with("Err") {
+                            past_grammar += 1;
+                        }
+                    }
+                    Err(p) => {
+                        let _ = writeln!(out, "V {}", json!({"entry": e, "text": inp.text, "ty": inp.ty, "panic": p, "site": drive::panic_site(&p)}));
+                    }
+                }
+            }
+        });
+        let _ = writeln!(out, "D {} {} {} {}", k, ran, skipped_depth, past_grammar);
+        let _ = out.flush();
+    }
+}
+
+// ---------------------------------------------------------------------------------------------
+// parent
+
+struct Worker {
+    child: Child,
+    rx: mpsc::Receiver<String>,
+}
+
+fn spawn_worker(tier: &str) -> Option<Worker> {
+    let exe = std::env::current_exe().ok()?;
+    let mut child = Command::new("sh")
+        .arg("-c")
+        .arg("ulimit -v 8000000; exec \"$0\" worker c06 \"$1\"")
+        .arg(exe)
+        .arg(tier)
+        .stdin(Stdio::piped())
+        .stdout(Stdio::piped())
+        .stderr(Stdio::null())
+        .spawn()
+        .ok()?;
+    let stdout = child.stdout.take()?;
+    let (tx, rx) = mpsc::channel();
+    std::thread::spawn(move || {
+        let r = BufReader::new(stdout);
+        for l in r.lines() {
+            match l {
+                Ok(l) => {
+                    if tx.send(l).is_err() {
+                        break;
+                    }
+                }
+                Err(_) => break,
+            }
+        }
+    });
+    Some(Worker { child, rx })
+}
+
+fn has_huge_number(text: &str) -> bool {
+    let mut run = String::new();
+    for c in text.chars().chain(std::iter::once(' ')) {
+        if c.is_ascii_digit() {
+            run.push(c);
+        } else {
+            if run.len() >= 7 && run.trim_start_matches('0').len() >= 7 {
+                return true;
+            }
+            run.clear();
+        }
+    }
+    false
+}
+
+pub fn run(rep: &Report) -> i32 {
+    let quick = rep.is_quick();
+    let space = Space::new(quick);
+    let jobs = space.jobs();
+    rep.set(
+        "bounds",
+        json!({"program_seeds": space.prog_seeds.iter().map(|s| s.0.clone()).collect::<Vec<_>>(), "module_seeds": space.mod_seeds.len(), "json_seeds": space.json_seeds.len(), "token_alphabet": space.alpha.len(), "value_strings": space.value_strings.len(), "value_types": space.value_types.len(), "type_strings": space.type_strings.len(),
+          "short_strings": if quick {"all strings of length <= 2 over 60+ characters and <= 3 over 19"} else {"all strings of length <= 3 over 60+ characters and <= 4 over 19"}, "double_edits": if quick {"none"} else {"6 smallest seeds, second edit within 12 tokens after the first, reduced alphabet"}, "bracket_depth_limit": 12, "watchdog_s": 20, "worker_address_space_kb": 8000000}),
+    );
+    let next = AtomicUsize::new(0);
+    let nworkers = crate::explore::jobs();
+    let tier = rep.tier.clone();
+    std::thread::scope(|s| {
+        for _ in 0..nworkers {
+            s.spawn(|| {
+                let mut w = match spawn_worker(&tier) {
+                    Some(w) => w,
+                    None => {
+                        rep.machinery("cannot spawn a C06 worker");
+                        return;
+                    }
+                };
+                'jobs: loop {
+                    if rep.out_of_time() {
+                        break;
+                    }
+                    let ji = next.fetch_add(1, Ordering::Relaxed);
+                    if ji >= jobs.len() {
+                        break;
+                    }
+                    let job = jobs[ji];
+                    let mut from = 0usize;
+                    let mut restarts = 0;
+                    loop {
+                        // (re)send the job
+                        let sent = w.child.stdin.as_mut().map(|i| writeln!(i, "{} {} {} {}", job.0, job.1, job.2, from).and_then(|_| i.flush()).is_ok()).unwrap_or(false);
+                        let mut last_started: Option<usize> = None;
+                        let mut died = !sent;
+                        let mut timed_out = false;
+                        while !died {
+                            match w.rx.recv_timeout(Duration::from_secs(20)) {
+                                Ok(l) => {
+                                    if let Some(rest) = l.strip_prefix("S ") {
+                                        last_started = rest.trim().parse().ok();
+                                    } else if let Some(rest) = l.strip_prefix("V ") {
+                                        if let Ok(v) = serde_json::from_str::<serde_json::Value>(rest) {
+                                            let entry = v["entry"].as_str().unwrap_or("").to_string();
+                                            let site = v["site"].as_str().unwrap_or("").to_string();
+                                            rep.class("panic");
+                                            rep.violation(
+                                                format!("C06:panic:{entry}:{site}"),
+                                                format!("{entry} panicked: {}", v["panic"].as_str().unwrap_or("")),
+                                                json!({"kind": "text", "entry": entry, "text": v["text"], "ty": v["ty"], "expect": "", "observed": "panic"}),
+                                            );
+                                        }
+                                    } else if let Some(rest) = l.strip_prefix("D ") {
+                                        let n: Vec<u64> = rest.split_whitespace().filter_map(|x| x.parse().ok()).collect();
+                                        if n.len() == 4 {
+                                            rep.states_n(n[0].saturating_sub(from as u64));
+                                            rep.transition(n[0].saturating_sub(from as u64));
+                                            rep.eval(n[1]);
+                                            rep.trace(n[1]);
+                                            rep.class_n("skipped(bracket depth > 12)", n[2]);
+                                            rep.nontrivial(n[3]);
+                                        }
+                                        continue 'jobs;
+                                    }
+                                }
+                                Err(mpsc::RecvTimeoutError::Timeout) => {
+                                    timed_out = true;
+                                    died = true;
+                                }
+                                Err(mpsc::RecvTimeoutError::Disconnected) => died = true,
+                            }
+                        }
+                        // the worker died (abort / stack overflow / kill on timeout) while running input `last_started`
+                        let _ = w.child.kill();
+                        let status = w.child.wait().ok();
+                        let k = last_started.unwrap_or(from);
+                        // regenerate the input text
+                        let mut culprit: Option<Input> = None;
+                        let mut idx = 0usize;
+                        space.expand(job, &mut |inp| {
+                            if idx == k {
+                                culprit = Some(inp);
+                            }
+                            idx += 1;
+                        });
+                        if let Some(inp) = culprit {
+                            if timed_out {
+                                rep.class("timeout(inconclusive)");
+                                rep.cap("per-input watchdog (20 s) hit on at least one input; those inputs are inconclusive, not violations");
+                            } else {
+                                rep.class("worker-died");
+                                let feature = if has_huge_number(&inp.text) { "huge-size-literal" } else { "other" };
+                                let sig_exit = status.map(|s| format!("{s}")).unwrap_or_default();
+                                rep.violation(
+                                    format!("C06:abort:{feature}"),
+                                    format!("worker process died ({sig_exit}) while running {:?} on a text of {} bytes: {:?}", inp.entries, inp.text.len(), inp.text.chars().take(120).collect::<String>()),
+                                    json!({"kind": "text-abort", "entries": inp.entries, "text": inp.text, "ty": inp.ty, "note": "run `simfony-mc worker c06` style isolation to reproduce: the entry point aborts the process"}),
+                                );
+                            }
+                        }
+                        from = k + 1;
+                        restarts += 1;
+                        match spawn_worker(&tier) {
+                            Some(nw) => w = nw,
+                            None => {
+                                rep.machinery("cannot respawn a C06 worker");
+                                return;
+                            }
+                        }
+                        if restarts > 200 {
+                            rep.cap("more than 200 worker restarts in one job");
+                            continue 'jobs;
+                        }
+                    }
+                }
+                let _ = w.child.kill();
+                let _ = w.child.wait();
+            });
+        }
+    });
+    let done = next.load(Ordering::Relaxed).min(jobs.len());
+    if done < jobs.len() {
+        rep.cap(format!("stopped after {done} of {} jobs", jobs.len()));
+    }
+    rep.sample(3, || json!({"example_inputs": [space.prog_seeds.first().map(|s| s.1.chars().take(300).collect::<String>()), space.value_strings.get(5).cloned(), space.type_strings.get(20).cloned()]}));
+    rep.finish(
+        "state = one input text (with its entry points); non-trivial = entry-point runs that got past the grammar (reached analysis / value conversion); inputs with bracket depth > 12 are skipped and counted; time-outs are inconclusive",
+        &["inputs run in worker subprocesses under `ulimit -v`; a dead worker is attributed to the input it had announced", "only panics / aborts are violations; resource use is not judged"],
+        true,
+    )
 }
